@@ -3,6 +3,7 @@ CONSTANTS
   Codecs = {"av1"}
   MaxAUs = 0
   MaxNALs = 0
+  MaxNALs265 = 0
   EmitLen = 99
 INVARIANTS Verdicts Drift
 POSTCONDITION Accepted
